@@ -2,6 +2,7 @@ package mon
 
 import (
 	"bufio"
+	"encoding/binary"
 	"encoding/json"
 	"fmt"
 	"os"
@@ -56,6 +57,7 @@ type Worker struct {
 	seen    map[string]map[string]struct{}
 	nSample int
 	pending string
+	pf      *os.File
 	sinceFl int
 }
 
@@ -100,7 +102,7 @@ func WorkerMain(handlers map[string]func(w *Worker)) {
 	w.d.Done = true
 	w.flushLocked()
 	w.mu.Unlock()
-	os.Remove(w.pending)
+	w.End()
 	os.Exit(0)
 }
 
@@ -112,17 +114,33 @@ func (w *Worker) Rng(label string, idx int) *Rng {
 }
 
 // Begin records the case about to run so that the parent can name the
-// culprit if the process dies (fatal error, OOM, stack overflow).
+// culprit if the process dies (fatal error, OOM, stack overflow). One pwrite
+// into a file that stays open: [8-byte LE total length][id]\n[input].
 func (w *Worker) Begin(caseID string, input []byte) {
-	buf := make([]byte, 0, len(caseID)+1+len(input))
+	if w.pf == nil {
+		f, err := os.OpenFile(w.pending, os.O_CREATE|os.O_RDWR, 0o644)
+		if err != nil {
+			return
+		}
+		w.pf = f
+	}
+	n := len(caseID) + 1 + len(input)
+	buf := make([]byte, 8, 8+n)
+	binary.LittleEndian.PutUint64(buf, uint64(n))
 	buf = append(buf, caseID...)
 	buf = append(buf, '\n')
 	buf = append(buf, input...)
-	os.WriteFile(w.pending, buf, 0o644)
+	w.pf.WriteAt(buf, 0)
 }
 
+var zero8 [8]byte
+
 // End marks the case as survived.
-func (w *Worker) End() { os.WriteFile(w.pending, nil, 0o644) }
+func (w *Worker) End() {
+	if w.pf != nil {
+		w.pf.WriteAt(zero8[:], 0)
+	}
+}
 
 func (w *Worker) flushLocked() {
 	if len(w.fps) > 0 {
@@ -319,7 +337,15 @@ func (r *Run) RunJobs(jobs []Job, opts ChildOpts, onCrash func(c Crash)) {
 				if werr != nil {
 					c.ExitInfo = werr.Error()
 				}
-				if pb, err := os.ReadFile(filepath.Join(dir, "pending")); err == nil && len(pb) > 0 {
+				if pb, err := os.ReadFile(filepath.Join(dir, "pending")); err == nil && len(pb) > 8 {
+					n := binary.LittleEndian.Uint64(pb)
+					pb = pb[8:]
+					if n < uint64(len(pb)) {
+						pb = pb[:n]
+					}
+					if n == 0 {
+						pb = nil
+					}
 					for k := 0; k < len(pb); k++ {
 						if pb[k] == '\n' {
 							c.Case = string(pb[:k])
